@@ -23,7 +23,7 @@ import (
 // calls of FatTree.tla on a real fat12/16/32 volume on a memdev and records, after every
 // call, the projections the trace specs judge.
 
-var fatPaths = []string{"A", "b", "L1", "L2", "D/A", "D/b", "D"}
+var fatPaths = []string{"A", "b", "L1", "L2", "D/A", "D/b", "D", "E/A", "E/b", "E"}
 
 type fatOp struct {
 	A   string `json:"a"`
@@ -52,11 +52,11 @@ type fatCfg struct {
 
 // name sets: model path -> real name (lookups may use a case variant)
 var fatNameSets = map[string]map[string]string{
-	"plain": {"A": "A.TXT", "b": "b.txt", "L1": "longfilename1.dat", "L2": "longfilename2.dat", "D": "DIR", "D/A": "DIR/A.TXT", "D/b": "DIR/b.txt"},
+	"plain": {"A": "A.TXT", "b": "b.txt", "L1": "longfilename1.dat", "L2": "longfilename2.dat", "D": "DIR", "D/A": "DIR/A.TXT", "D/b": "DIR/b.txt", "E": "Another Directory", "E/A": "Another Directory/A.TXT", "E/b": "Another Directory/b.txt"},
 	// names that collide after 8.3 conversion, mixed case, spaces, non-ASCII, a long directory name
-	"tricky": {"A": "a b.txt", "b": "ab.txt", "L1": "Report.final.v2.TXT", "L2": "Report.final.v1.TXT", "D": "My Documents.dir", "D/A": "My Documents.dir/Mixed Case.Txt", "D/b": "My Documents.dir/grüße.txt"},
+	"tricky": {"A": "a b.txt", "b": "ab.txt", "L1": "Report.final.v2.TXT", "L2": "Report.final.v1.TXT", "D": "My Documents.dir", "D/A": "My Documents.dir/Mixed Case.Txt", "D/b": "My Documents.dir/grüße.txt", "E": "My Documents.old", "E/A": "My Documents.old/Mixed Case.Txt", "E/b": "My Documents.old/grüße.txt"},
 	// 8.3 upper-case only (no long-name slots at all)
-	"short": {"A": "A", "b": "B.B", "L1": "LONGNAME.DAT", "L2": "LONGNAM2.DAT", "D": "D", "D/A": "D/A", "D/b": "D/B.B"},
+	"short": {"A": "A", "b": "B.B", "L1": "LONGNAME.DAT", "L2": "LONGNAM2.DAT", "D": "D", "D/A": "D/A", "D/b": "D/B.B", "E": "E.DIR", "E/A": "E.DIR/A", "E/b": "E.DIR/B.B"},
 }
 
 type fatRun struct {
